@@ -21,7 +21,7 @@ RULE = (
     "permutation and rescaling invariance, errors. Non-trivial = a reference bin is filtered and the sample row order differs from "
     "the reference order, or a correction is enabled; distinct = distinct case JSON."
 )
-QUICK = {"examples": 400, "shards": 16, "budget_s": 500, "shrink": False}
+QUICK = {"examples": 800, "shards": 16, "budget_s": 500, "shrink": False}
 THOROUGH = {"examples": 6400, "shards": 16, "budget_s": 3000}
 ASSUMPTIONS = [
     "gc and rmask covariates are distinct by construction; when the edge covariate (computed by the model) has ties the exact-value clause is skipped, because ties are broken by a seeded shuffle the property does not define",
